@@ -5068,8 +5068,13 @@ bracket_addr_ok(const char *s, const char *eos)
 	}
 }
 
+/* Parse the authority [s, eos).  With EVHTTP_URI_UNIX_SOCKET the socket path
+ * of "unix:<path>:" may contain '/', '?' or '#', in which case the authority
+ * really ends after eos; if end_out is not NULL it is set to the place where
+ * the rest of the URI (path, query, fragment) starts. */
 static int
-parse_authority(struct evhttp_uri *uri, char *s, char *eos, unsigned *flags)
+parse_authority(struct evhttp_uri *uri, char *s, char *eos, unsigned *flags,
+    char **end_out)
 {
 	size_t len;
 	char *cp, *port;
@@ -5106,6 +5111,12 @@ parse_authority(struct evhttp_uri *uri, char *s, char *eos, unsigned *flags)
 		if (e) {
 			*e = '\0';
 			uri->unixsocket = mm_strdup(cp + 5);
+			if (uri->unixsocket == NULL) {
+				event_warn("%s: strdup", __func__);
+				return -1;
+			}
+			if (end_out)
+				*end_out = e + 1;
 			return 0;
 		} else {
 			return -1;
@@ -5287,7 +5298,7 @@ evhttp_uri_parse_with_flags(const char *source_uri, unsigned flags)
 		readp += 2;
 		authority = readp;
 		path = end_of_authority(readp);
-		if (parse_authority(uri, authority, path, &uri->flags) < 0)
+		if (parse_authority(uri, authority, path, &uri->flags, &path) < 0)
 			goto err;
 		readp = path;
 		got_authority = 1;
@@ -5379,7 +5390,7 @@ evhttp_uri_parse_authority(char *source_uri, unsigned flags)
 	uri->flags = flags;
 
 	end = end_of_authority(source_uri);
-	if (parse_authority(uri, source_uri, end, &uri->flags) < 0)
+	if (parse_authority(uri, source_uri, end, &uri->flags, NULL) < 0)
 		goto err;
 
 	uri->path = mm_strdup("");
@@ -5443,6 +5454,10 @@ evhttp_uri_join(const struct evhttp_uri *uri, char *buf, size_t limit)
 		if (uri->userinfo)
 			evbuffer_add_printf(tmp, "%s@", uri->userinfo);
 		evbuffer_add_printf(tmp, "unix:%s:", uri->unixsocket);
+
+		/* as after a host, the path must be empty or begin with "/" */
+		if (uri->path && uri->path[0] != '/' && uri->path[0] != '\0')
+			goto err;
 	}
 	else
 #endif
